@@ -22,7 +22,7 @@ for d in $(ls -d "$HERE"/seeded/*/ | xargs -n1 basename); do
     C06-r4-2) extra="C08";; C09-r4-1|C09-r4-2) extra="C08";; C10-r4-1) extra="C11";; C02-r4-1) extra="C03";; C13-r4-2) extra="C12";;
     C06-r4-1) extra="C18";; C11-r4-2) extra="C05";; C05-r4-2) extra="C11";;
   esac
-  echo "$d $id $extra" >> "$OUT.jobs"
+  echo "$d $id $extra" | sed 's/ *$//' >> "$OUT.jobs"      # (xargs -L continues a line that ends in a blank)
 done
 # PAR seeded changes are tried at a time (default 1; each one uses its own scratch worktree and output directory)
 sort "$OUT.jobs" | xargs -P "${PAR:-1}" -L 1 sh -c '
